@@ -11,9 +11,11 @@ from impl_market import MarketRun, gen_history, small_scope_histories
 # which driver channels implicate which property (a divergence on a channel is reported only by
 # the properties whose theorems speak about the model function producing that channel)
 CHANNELS = {
-    "C01": {"fill.price", "fill.pairs", "out.err@exec"},
+    # C01 / C03 are proved under the market invariant (sides sorted by priority): a divergence of
+    # the book's pop order from the sorted model breaks the tie of that hypothesis as well
+    "C01": {"fill.price", "fill.pairs", "out.err@exec", "state.book"},
     "C02": {"prio", "fill.pairs", "state.book"},
-    "C03": {"exec.pred", "out.err@exec", "state.book@exec"},
+    "C03": {"exec.pred", "out.err@exec", "state.book"},
     "C04": {"out.order", "out.cancel", "out.expiry", "fill.pairs", "state.book", "state.gone",
             "out.err@add", "out.err@cancel", "state.clock"},
     "C06": {"state.clock", "state.past"},
@@ -540,7 +542,8 @@ def shrink(prop, cfg, ops, sig, budget=150):
     return cur
 
 
-def run_market_property(ctx, prop, n_quick=400, ops_len=60, extra_gen=None, model_available=True):
+def run_market_property(ctx, prop, n_quick=400, ops_len=60, extra_gen=None, model_available=True,
+                        sweep_share=0.0):
     rng = ctx.rng("market")
     n = n_quick * (ctx.scale if ctx.tier == "thorough" else 1)
     mon = MONITORS[prop]
@@ -559,7 +562,10 @@ def run_market_property(ctx, prop, n_quick=400, ops_len=60, extra_gen=None, mode
 
     def gen_all():
         for k in range(n):
-            yield gen_history(rng, rng.choice([20, 40, ops_len, ops_len]))
+            if rng.random() < sweep_share:
+                yield gen_history(rng, 30, profile="sweep")
+            else:
+                yield gen_history(rng, rng.choice([20, 40, ops_len, ops_len]))
         if extra_gen is not None:
             for c in extra_gen(rng):
                 yield c
